@@ -1,8 +1,40 @@
 import ApolloModel.Model.Proto
-open Apollo Apollo.Proto
+import ApolloModel.Model.TypedDoc
+import Driver.D20
+open Apollo Apollo.Proto Apollo.Standalone Apollo.Typed
 namespace Driver
 
+/-! schema tables written by harness/src/p18.rs: `R q m s`, `T name kind nfields (fname defid innerTy)*` -/
+
+def pFieldDef (ts : Toks) : Option ((Name × FDef) × Toks) := do
+  let (n, ts) ← pNat ts
+  let (i, ts) ← pNat ts
+  let (t, ts) ← pNat ts
+  pure ((n, { id := i, ty := t }), ts)
+
+partial def pTSchema (acc : TSchema) : Toks → Option TSchema
+  | [] => some acc
+  | "R" :: ts => do
+    let (q, ts) ← pOptNat ts
+    let (m, ts) ← pOptNat ts
+    let (s, ts) ← pOptNat ts
+    pTSchema { acc with query := q, mutation := m, subscription := s } ts
+  | "T" :: n :: k :: ts => do
+    let n ← n.toNat?
+    let k ← (match k with
+      | "o" => some TKind.object | "i" => some .interface | "u" => some .union
+      | "s" => some .scalar | "e" => some .enum | "n" => some .inputObject | _ => none)
+    let (fs, ts) ← pCounted pFieldDef ts
+    pTSchema { acc with types := acc.types ++ [{ name := n, kind := k, fields := fs }] } ts
+  | _ => none
+
 /-- streams of property C18 are named `c18.<name>` -/
-def c18 (_stream : String) (_fs : List String) : String := "unknown-stream"
+def c18 (stream : String) (fs : List String) : String :=
+  match stream, fs with
+  | "c18.typed", [schema, doc] =>
+    match pTSchema { types := [], query := none, mutation := none, subscription := none } (toks schema), pDefs (toks doc) with
+    | some s, some ast => dumpDoc (buildDocT s ast)
+    | _, _ => "bad-case"
+  | _, _ => "unknown-stream"
 
 end Driver
